@@ -55,9 +55,102 @@ def norm_ty(t):
     return re.sub(r"'\w+", "'_", t or '')
 
 
+# ---- type identity -----------------------------------------------------------------------------------------------------
+_PATH = re.compile(r'[A-Za-z_][A-Za-z0-9_]*(?:::[A-Za-z_][A-Za-z0-9_]*)+')
+
+
+class Names:
+    """The spec tables name workspace types by their paths on the pinned tree.  lib/mir.py already reads a moved /
+    renamed type under its baseline name when its signature (field names and field *type texts*) is unchanged; that is
+    one pass, so a moved type whose field mentions another moved type keeps its new name.  This completes the
+    identification to a fixpoint, by two facts that do not depend on where an item is spelled:
+      signature  a gone baseline type = the one new type of identical signature, read modulo the identifications made so far
+      position   a gone baseline type = the new type that now stands in the same place of the same field of an (identified)
+                 parent type, i.e. the type of the same table of the document
+    Only the *name* under which a spec row is looked up is affected: the type found is checked against the whole row
+    (keys, strictness, kinds, value paths), so a wrong identification cannot hide anything, it could only raise alarms.
+    `cur(t)` baseline path -> today's path, `base(text)` today's paths in a type text -> baseline paths.
+    (local; wanted in lib/mir.py: iterate read_under_baseline_names over adts to a fixpoint)"""
+
+    def __init__(self, prog):
+        import json
+        from .lib import mir
+        self.to_base = {}
+        try:
+            with open(mir.BASELINE) as fh:
+                base = json.load(fh)['adts']
+        except (OSError, KeyError, ValueError):
+            base = {}
+        crates = {p.split('::')[0] for p in prog.adts}
+        cur = {p: mir.adt_sig(a, p.split('::')[0]) for p, a in prog.adts.items() if not a.get('in_body')}
+        for _ in range(8):
+            missing = {p: s for p, s in base.items() if p not in cur and p not in self.to_base.values() and s[0] in crates}
+            fresh = {p: self._sig_base(s) for p, s in cur.items() if p not in base and p not in self.to_base}
+            if not missing or not fresh:
+                break
+            m = dict(mir._match(missing, fresh))
+            if not m:
+                m = self._by_position(base, cur, missing, fresh)
+            if not m:
+                break
+            self.to_base.update(m)
+        self.to_cur = {b: c for c, b in self.to_base.items()}
+        self._rx_b = self._rx(self.to_base)
+        self._rx_c = self._rx(self.to_cur)
+
+    @staticmethod
+    def _rx(m):
+        if not m:
+            return None
+        return re.compile(r'(?<![\w:])(' + '|'.join(re.escape(n) for n in sorted(m, key=len, reverse=True)) + r')(?!\w|::)')
+
+    def _sig_base(self, s):
+        if not self.to_base:
+            return s
+        rx = self._rx(self.to_base)
+        return [s[0], s[1], [[vn, [[fn_, rx.sub(lambda mm: self.to_base[mm.group(1)], ty)] for fn_, ty in fs]] for vn, fs in s[2]]]
+
+    def _by_position(self, base, cur, missing, fresh):
+        cand = {}
+        for pb, sb in base.items():
+            pc = pb if pb in cur else {b: c for c, b in self.to_base.items()}.get(pb)
+            if pc is None or pc not in cur:
+                continue
+            sc = self._sig_base(cur[pc])
+            if sb[1] != sc[1]:
+                continue
+            vb = {vn: dict(map(tuple, fs)) for vn, fs in sb[2]}
+            vc = {vn: dict(map(tuple, fs)) for vn, fs in sc[2]}
+            for vn, fb in vb.items():
+                for fname, tb in fb.items():
+                    tc = vc.get(vn, {}).get(fname)
+                    if tc is None or tc == tb:
+                        continue
+                    nb, nc = _PATH.findall(tb), _PATH.findall(tc)
+                    if len(nb) != len(nc) or _PATH.sub('@', tb) != _PATH.sub('@', tc):
+                        continue
+                    for x, y in zip(nb, nc):
+                        if x != y:
+                            cand.setdefault(x, set()).add(y if (x in missing and y in fresh) else None)
+        out = {}
+        for b, cs in cand.items():
+            if len(cs) == 1 and None not in cs:
+                c = next(iter(cs))
+                if c not in out and sum(1 for b2, cs2 in cand.items() if c in cs2) == 1:
+                    out[c] = b
+        return out
+
+    def cur(self, text):
+        return self._rx_c.sub(lambda m: self.to_cur[m.group(1)], text) if self._rx_c and text else text
+
+    def base(self, text):
+        return self._rx_b.sub(lambda m: self.to_base[m.group(1)], text) if self._rx_b and text else text
+
+
 def is_conv(name):
     """a fallible, validating conversion from a string (by trait): TryFrom::try_from / FromStr::from_str / str::parse"""
     return bool(re.search(r'(^|[ :])std::convert::TryFrom(<.*>)?>?::try_from$', name) or name == 'std::convert::TryFrom::try_from'
+                or re.search(r'(^|[ :])std::convert::TryInto(<.*>)?>?::try_into$', name)   # = <U as TryFrom<T>>::try_from (std blanket impl)
                 or re.search(r'std::str::FromStr>?::from_str$', name) or re.search(r'^(core|std)::str::<impl str>::parse(::<.*>)?$', name))
 
 
@@ -68,6 +161,74 @@ def site_call(prog, site):
     if f is None:
         return None, None
     return f, f.call_at(site[1])
+
+
+def effective_conversion(prog, conv):
+    """the workspace function that a validating conversion call (value of the normal form) runs:
+    `s.parse::<T>()` = <T as FromStr>::from_str, `s.try_into()` : U = <U as TryFrom<S>>::try_from, a resolved trait call =
+    itself; None when that is not an impl of the workspace (a std blanket impl does not validate anything)"""
+    if conv is None or conv[0] != 'call':
+        return None
+    g, c = site_call(prog, conv[3]) if len(conv) > 3 else (None, None)
+    name = conv[1]
+    cands = []
+    if c is not None:
+        full, ga = c.full or '', list(c.ga or [])
+        if re.search(r'^(core|std)::str::<impl str>::parse(::<.*>)?$', name) and ga:
+            cands.append('<%s as std::str::FromStr>::from_str' % ga[-1])
+        elif name.endswith('TryInto::try_into') or re.search(r'TryInto<.*>>::try_into$', name):
+            if len(ga) == 2:
+                cands.append('<%s as std::convert::TryFrom<%s>>::try_from' % (ga[1], ga[0]))
+        elif name in ('std::convert::TryFrom::try_from', 'std::str::FromStr::from_str') and full:
+            cands.append(full)
+    cands.append(name)
+    for n in cands:
+        if n in prog.fns:
+            return n
+    return None
+
+
+def conversion_is(prog, sl, conv, primary, depth=0):
+    """does the conversion call `conv` run the workspace conversion satisfying primary(path) -- directly, or through another
+    workspace conversion that is nothing but the primary one applied to its own argument (its failure being its failure)?"""
+    e = effective_conversion(prog, conv)
+    if e is None:
+        return False
+    if primary(e):
+        return True
+    if depth >= 2:
+        return False
+    E = prog.fns[e]
+    if E.argc != 1:
+        return False
+    r = sl.inline_deep(sl.local(E, 0), keep=tuple(p for p in prog.fns if primary(p)))
+    alts = r[1] if r[0] == 'phi' else (r,)
+    inner = None
+    for x in alts:
+        # either the primary conversion's result itself, or Ok(primary(..)?) with the residual handed on
+        y = x
+        if y[0] == 'agg' and y[2] == 'Ok' and y[1] == 'std::result::Result':
+            y = dict(y[3]).get('0', ('unknown',))
+        if y[0] == 'call' and y[1].endswith('FromResidual::from_residual'):
+            continue
+        while y[0] == 'unwrap':
+            y = y[1]
+        if y[0] == 'call' and y[1].endswith('::map_err') and y[2]:
+            y = y[2][0]
+        if not (y[0] == 'call' and is_conv(y[1]) and len(y[2]) == 1):
+            return False
+        if inner is not None and inner != y:
+            return False
+        inner = y
+    if inner is None:
+        return False
+    a = _peel_same_text(inner[2][0])
+    if not (a[0] == 'param' and a[1] == E.path and a[2] == 0):
+        return False
+    g, c = site_call(prog, inner[3])
+    if not must_succeed(prog, E, g, c):
+        return False
+    return conversion_is(prog, sl, inner, primary, depth + 1)
 
 
 def _switched(fn, local):
@@ -181,10 +342,10 @@ def must_succeed(prog, top, g, c, depth=0):
     return all(must_succeed(prog, top, f, c2, depth + 1) for f, c2 in sites)
 
 
-def string_leaf(prog, sl, W):
+def string_leaf(prog, sl, W, out=None):
     """W(deserializer) -> Result<T, _>.  Is it `validate(String::deserialize(deserializer)?)?` with nothing in between?
     -> (verdict, text) with verdict True (recognised), False (decided: the string is changed / a failure is tolerated),
-    None (shape not recognised)"""
+    None (shape not recognised).  out (dict): out['conv'] = the validating conversion's call value of the normal form"""
     v = sl.mk_unwrap(sl.local(W, 0), 1)
     for _ in range(8):
         while v[0] == 'unwrap':
@@ -196,6 +357,8 @@ def string_leaf(prog, sl, W):
             if not v[2]:
                 return None, 'conversion without argument'
             arg = v[2][0]
+            if out is not None:
+                out['conv'] = v
             a = arg
             while a[0] == 'unwrap':
                 a = a[1]
@@ -431,6 +594,69 @@ def buffer_filled_from(prog, sl, f, site):
     return 'the open of the file is not on every successful path'
 
 
+# calls that hand a text on unchanged (value level): what is parsed is still exactly the text read
+SAME_TEXT = re.compile(r"(^|[ :<])(std::string::String as std::clone::Clone>::clone|std::string::String::as_str|std::string::String::into_boxed_str"
+                       r"|std::string::ToString>?::to_string|std::borrow::ToOwned>?::to_owned|std::ops::Deref>?::deref|std::convert::AsRef<str>>?::as_ref"
+                       r"|std::borrow::Borrow<str>>?::borrow|std::convert::From<std::string::String>>::from|std::convert::From<&str>>::from)$")
+
+
+def _peel_same_text(a):
+    for _ in range(12):
+        if a[0] == 'unwrap':
+            a = a[1]
+        elif a[0] == 'call' and len(a[2]) == 1 and SAME_TEXT.search(a[1]):
+            a = a[2][0]
+        else:
+            break
+    return a
+
+
+def _is_path_param(f, x):
+    while x[0] == 'unwrap':
+        x = x[1]
+    return x[0] == 'param' and x[1] == f.path and x[2] == 0
+
+
+def _reader_of(f, r, sites):
+    """r is a reader that yields exactly the bytes of the file at f's path parameter: File::open(path)?, possibly buffered"""
+    while r[0] == 'unwrap':
+        r = r[1]
+    if r[0] != 'call':
+        return False
+    if r[1] == 'std::fs::File::open' and len(r[2]) == 1 and _is_path_param(f, r[2][0]):
+        sites.append(r[3])
+        return True
+    if re.match(r'^std::io::BufReader::<.*>::new$', r[1]) and len(r[2]) == 1:
+        return _reader_of(f, r[2][0], sites)
+    if re.match(r'^std::io::BufReader::<.*>::with_capacity$', r[1]) and len(r[2]) == 2:
+        return _reader_of(f, r[2][1], sites)
+    return False
+
+
+def file_text(f, a):
+    """is value `a` exactly the text of the file at f's path parameter?  -> ([sites of the fallible calls that all have to
+    succeed], spelling) | (None, 'altered') a complete read of the file occurs strictly inside other computations |
+    (None, 'unknown')"""
+    a = _peel_same_text(a)
+    sites = []
+    if a[0] == 'call' and a[1] == 'std::fs::read_to_string' and len(a[2]) == 1 and _is_path_param(f, a[2][0]):
+        return [a[3]], 'read_to_string(path)?'
+    if a[0] == 'call' and a[1] == 'std::io::read_to_string' and len(a[2]) == 1 and _reader_of(f, a[2][0], sites):
+        return sites + [a[3]], 'io::read_to_string(File::open(path)?)?'
+    if a[0] == 'call' and re.match(r'^std::string::String::from_utf8$', a[1]) and len(a[2]) == 1:
+        b = a[2][0]
+        while b[0] == 'unwrap':
+            b = b[1]
+        if b[0] == 'call' and b[1] == 'std::fs::read' and len(b[2]) == 1 and _is_path_param(f, b[2][0]):
+            return [b[3], a[3]], 'String::from_utf8(fs::read(path)?)?'
+    whole = ('std::fs::read_to_string', 'std::fs::read', 'std::io::read_to_string')
+    if any(x[0] == 'call' and x[1] in whole and any(y[0] == 'param' and y[1] == f.path for y in walk(x)) for x in walk(a)):
+        return None, 'altered'
+    if any(x[0] == 'param' and x[1] == f.path and x[2] == 0 for x in walk(a)) and not any(x[0] == 'call' and x[1] == 'std::fs::File::open' for x in walk(a)):
+        return None, 'altered'   # the path itself (not what a file holds) reaches the parser
+    return None, 'unknown'
+
+
 def reader_ok(prog, sl, f):
     """read_toml_file::<A>(path): the value is toml::from_str::<A> of exactly the file's text, both failures propagate"""
     v = sl.mk_unwrap(sl.inline_deep(sl.mk_unwrap(sl.local(f, 0), 1)), 1)
@@ -441,11 +667,8 @@ def reader_ok(prog, sl, f):
     g, c = site_call(prog, v[3])
     if c is None or not c.ga or g is None or not _flows_to_result(prog, f, g, c.ga[0]):
         return None, 'toml::from_str is not instantiated with the type the caller asked for (%s)' % (c.ga if c else None)
-    a = v[2][0]
-    while a[0] == 'unwrap':
-        a = a[1]
-    exact = a[0] == 'call' and a[1] == 'std::fs::read_to_string' and a[2] and a[2][0][0] == 'param' and a[2][0][1] == f.path and a[2][0][2] == 0
-    if not exact and a[0] == 'call' and a[1] == 'std::string::String::new':
+    a = _peel_same_text(v[2][0])
+    if a[0] == 'call' and a[1] == 'std::string::String::new':
         # `let mut buf = String::new(); File::open(path)?.read_to_string(&mut buf)?;`
         why = buffer_filled_from(prog, sl, f, a[3])
         if why is None:
@@ -453,13 +676,17 @@ def reader_ok(prog, sl, f):
                 return False, 'a TOML/deserialization error can still end in success'
             return True, 'toml::from_str::<%s>(File::open(path)?.read_to_string(..)?)?' % c.ga[0]
         return None, why
-    if not exact:
-        if any(x[0] == 'param' and x[1] == f.path for x in walk(a)):
+    sites, how = file_text(f, a)
+    if sites is None:
+        if how == 'altered':
             return False, 'parses %s, not the text of the file' % vstr(a)[:140]
         return None, 'parsed text is %s' % vstr(a)[:140]
     if not must_succeed(prog, f, g, c):
         return False, 'a TOML/deserialization error can still end in success'
-    g2, c2 = site_call(prog, a[3])
-    if not must_succeed(prog, f, g2, c2):
-        return False, 'a read error can still end in success'
-    return True, 'toml::from_str::<%s>(&read_to_string(path)?)?' % c.ga[0]
+    for site in sites:
+        g2, c2 = site_call(prog, site)
+        if not must_succeed(prog, f, g2, c2):
+            return False, 'a read error can still end in success'
+    return True, 'toml::from_str::<%s>(&%s)?' % (c.ga[0], how)
+
+
